@@ -4,7 +4,7 @@
    moment pts wts k = sum_i w_i x_i^k. *)
 From Coq Require Import Reals List Lia.
 From Coquelicot Require Import Coquelicot.
-From MV Require Import Ops RInst Vec Quadrature SumR QuadratureP.
+From MV Require Import Ops RInst Vec Quadrature SumR QuadratureP SpawnStack SpawnStackP.
 Open Scope R_scope.
 
 Theorem C18_midpoint : forall (n : nat) (a b : R), (1 <= n)%nat -> a < b ->
@@ -89,6 +89,30 @@ Proof.
   - apply (gl_nodes_inside a b Hab x xi H H0).
 Qed.
 Print Assumptions C18_gauss_legendre_affine.
+
+(* degree of exactness transfers: a reference rule exact for every polynomial of degree <= d on
+   [-1,1] (leggauss(n): d = 2n-1, oracle) gives a mapped rule that integrates every monomial
+   t^k, k <= d, exactly on [a,b] (polynomials of degree <= d are closed under affine substitution) *)
+Theorem C18_gauss_legendre_degree_of_exactness : forall (a b : R) (x w : list R) (d : nat), a < b ->
+  (forall g, poly_le d g -> rule_sum x w g = RInt g (-1) 1) ->
+  forall k, (k <= d)%nat ->
+  rule_sum (gl_pts ROps x a b) (gl_wts ROps w a b) (fun t => t ^ k) = RInt (fun t => t ^ k) a b.
+Proof. intros. apply (gl_exact_to_degree a b x w d); assumption. Qed.
+Print Assumptions C18_gauss_legendre_degree_of_exactness.
+
+(* a spawn stack built from quadrature sizes is the tensor product of the per-level rules: its
+   flattened weights (products along root-to-leaf paths) sum to the product of the per-level
+   weight sums — equal to one when every level is a rule on [0,1] (weights sum to b-a = 1) *)
+Theorem C18_spawn_stack_is_tensor_product : forall (levels : list (list R * list R)) mcs,
+  levels <> nil -> List.Forall (fun lv => length (fst lv) = length (snd lv) /\ fst lv <> nil) levels ->
+  vsum ROps (map snd (SpawnStack.leaves ROps (length levels) (SpawnStack.build levels mcs))) = level_prod levels
+  /\ (List.Forall (fun lv => vsum ROps (snd lv) = 1) levels -> level_prod levels = 1).
+Proof.
+  intros levels mcs Hne Hall. split; [apply stack_weights_product; assumption|].
+  intros H1. clear Hne Hall. induction H1 as [|[pts wts] rest Hh _ IH]; cbn [level_prod]; [reflexivity|].
+  cbn in Hh. rewrite Hh, IH. ring.
+Qed.
+Print Assumptions C18_spawn_stack_is_tensor_product.
 
 (* PARTIAL (not mechanised): the Waldvogel FFT identity behind clenshaw_curtis
    (validated per n against exact moments by the harness); leggauss itself (oracle). *)
